@@ -291,15 +291,13 @@ func visitInstr(fr *frame, instr ssa.Instruction) continuation {
 		idx := fr.get(instr.Index)
 		switch x := x.(type) {
 		case []value:
-			k := i.indexCheck(idx, len(x))
-			fr.env[instr] = &x[k]
+			fr.env[instr] = i.indexAddr(x, idx)
 		case *value: // *array
 			if x == nil {
 				panic(runtimeError("invalid memory address or nil pointer dereference"))
 			}
 			a := (*x).(array)
-			k := i.indexCheck(idx, len(a))
-			fr.env[instr] = &a[k]
+			fr.env[instr] = i.indexAddr(a, idx)
 		default:
 			panic(fmt.Sprintf("unexpected x type in IndexAddr: %T", x))
 		}
